@@ -10,7 +10,14 @@ Property theorems:
                                      (C19) accepts it
   accepted_ir_emits_acyclic_graph    the executable verdict `accepts` is sound for that hypothesis
   rank_certifies_acyclic             a rank function on the cut IR graph excludes cycles
-Not modelled (decided by rustc on the sampled programs only): that the generated Rust type-checks.
+  predictedEdges_sound               the projection the driver prints (compared with the real
+                                     emitted graph by the harness) lies inside `emitEdge`
+  completed_program_accepted_refuted the clause as stated (`CompletedProgramAcceptedStatement`:
+                                     every program that completes its forward references is
+                                     accepted) is false: a top-level forward reference closed
+                                     through local operators is rejected (finding F41)
+Not modelled (decided by rustc on the sampled programs only): that the generated Rust type-checks;
+handoff references / access groups / loop blocks as same-tick dependencies.
 -/
 import HvNet.Model.Emit
 import Mathlib.Logic.Relation
@@ -127,5 +134,96 @@ def exNet : IR :=
   [⟨.cycSource 0, 0, []⟩, ⟨.op, 0, [0]⟩, ⟨.netSend, 0, [1]⟩, ⟨.netRecv, 1, []⟩, ⟨.op, 1, [3]⟩,
    ⟨.netSend, 1, [4]⟩, ⟨.netRecv, 0, []⟩, ⟨.cycSink 0, 0, [6]⟩]
 example : accepts exNet = true := by decide
+
+/-! ## The projection compared by the harness is inside the relation of the theorem -/
+
+/-- Every non-delaying edge `(a, y)` of `predictedEdges` — the list the driver prints and the
+harness compares, edge for edge, with the projection of the *real* emitted DFIR graph onto the IR
+nodes owning its operators — is an `emitEdge` between any two pipeline positions of `a` and `y`.
+So the graph observed on the real emitter is covered by the relation for which
+`emitted_graph_no_same_tick_cycle` is proved. -/
+theorem predictedEdges_sound (ir : IR) (a y : Nat) (h : (a, y, false) ∈ predictedEdges ir) :
+    ∀ i j, emitEdge ir (a, i) (y, j) := by
+  intro i j
+  simp only [predictedEdges, List.mem_flatMap, List.mem_range] at h
+  obtain ⟨y', _, h⟩ := h
+  have key : (a, y, false) ∈ (inputsOf ir y').filterMap (fun x =>
+      match resolve ir x with
+      | some a => if a == y' then none else some (a, y', isDefer ir y')
+      | none => none) := by
+    split at h <;> first | (simp at h; done) | exact h
+  simp only [List.mem_filterMap] at key
+  obtain ⟨x, hx, hr⟩ := key
+  cases hres : resolve ir x with
+  | none => simp [hres] at hr
+  | some a' =>
+    simp only [hres] at hr
+    split at hr
+    · simp at hr
+    · simp only [Option.some.injEq, Prod.mk.injEq] at hr
+      obtain ⟨rfl, rfl, hd⟩ := hr
+      exact Or.inr ⟨x, hx, hres, hd⟩
+
+/-! ## The clause as stated, and the program that refutes it (finding F41) -/
+
+/-- every forward reference / tick cycle that is read has been completed -/
+def Completed (ir : IR) : Prop :=
+  ∀ v c, kindOf ir v = some (Kind.cycSource c) → (sinkOf ir c).isSome = true
+
+/-- C41 as stated, on the model: every program whose forward references and tick cycles are all
+completed is accepted (partitions without a same-tick cycle). -/
+def CompletedProgramAcceptedStatement : Prop := ∀ ir, Completed ir → accepts ir = true
+
+/-- `let (h, s) = p.forward_ref(); let m = input.merge_ordered(s).map(..); h.complete(m.clone());
+m.embedded_output(..)` on a top-level (non-tick) location: an asynchronous cycle outside a tick,
+which the documentation of `ForwardHandle::complete` allows.  This is, node for node, the abstract
+IR the harness extracts for corpus/C41/f41_top_level_forward_ref_cycle.case #1. -/
+def exTopLevelCycle : IR :=
+  [⟨.src, 0, []⟩, ⟨.cycSource 0, 0, []⟩, ⟨.op, 0, [0, 1]⟩, ⟨.op, 0, [2]⟩, ⟨.tee, 0, [3]⟩,
+   ⟨.cycSink 0, 0, [4]⟩, ⟨.src, 0, []⟩, ⟨.sink, 0, [6]⟩, ⟨.sink, 0, [4]⟩]
+
+/-- REFUTED (F41): the emission adds no delay for a forward reference, so a completed top-level
+forward reference that is closed through local operators only gives a same-tick cycle and the
+builder rejects the program (the harness observes exactly this rejection on the real builder). -/
+theorem completed_program_accepted_refuted : ¬ CompletedProgramAcceptedStatement := by
+  intro h
+  have hc : Completed exTopLevelCycle := by
+    intro v c hk
+    have hv : v < 9 := by
+      by_cases hv : v < 9
+      · exact hv
+      · have : exTopLevelCycle[v]? = none := List.getElem?_eq_none (by simp [exTopLevelCycle]; omega)
+        simp [kindOf, this] at hk
+    have : v = 0 ∨ v = 1 ∨ v = 2 ∨ v = 3 ∨ v = 4 ∨ v = 5 ∨ v = 6 ∨ v = 7 ∨ v = 8 := by omega
+    rcases this with rfl | rfl | rfl | rfl | rfl | rfl | rfl | rfl | rfl <;>
+      simp [kindOf, exTopLevelCycle] at hk
+    subst hk
+    decide
+  have := h exTopLevelCycle hc
+  revert this
+  decide
+
+/-- the rejection is for a real same-tick cycle of the IR: source -> merge -> map -> tee -> sink -> source -/
+example : TransGen (depCut exTopLevelCycle) 1 1 :=
+  TransGen.tail (TransGen.tail (TransGen.tail (TransGen.tail
+    (TransGen.single (show (1, 2) ∈ cutEdges exTopLevelCycle by decide))
+    (show (2, 3) ∈ cutEdges exTopLevelCycle by decide))
+    (show (3, 4) ∈ cutEdges exTopLevelCycle by decide))
+    (show (4, 5) ∈ cutEdges exTopLevelCycle by decide))
+    (show (5, 1) ∈ cutEdges exTopLevelCycle by decide)
+/-- the same program with the forward reference closed through a network round trip is accepted -/
+example : Completed exNet ∧ accepts exNet = true := by
+  refine ⟨?_, by decide⟩
+  intro v c hk
+  have hv : v < 8 := by
+    by_cases hv : v < 8
+    · exact hv
+    · have : exNet[v]? = none := List.getElem?_eq_none (by simp [exNet]; omega)
+      simp [kindOf, this] at hk
+  have : v = 0 ∨ v = 1 ∨ v = 2 ∨ v = 3 ∨ v = 4 ∨ v = 5 ∨ v = 6 ∨ v = 7 := by omega
+  rcases this with rfl | rfl | rfl | rfl | rfl | rfl | rfl | rfl <;>
+    simp [kindOf, exNet] at hk
+  subst hk
+  decide
 
 end HvNet.Emit
